@@ -1123,15 +1123,23 @@ class StateEngine(object):
             if a branch fails and the failure is uncaught then all the branches
             will ultimately need to be terminated/aborted.
             """
-            parent_terminated = None
-            if len(branch_info_stack) > 1:
-                parent_info = branch_info_stack[-2]
-                parent_id = parent_info["ID"]
-                parent_branch_results = all_branch_results.get(parent_id)
-                if parent_branch_results:
-                    parent_terminated = parent_branch_results.get("terminated")
-                    parent_results = parent_branch_results.get("results")
-                    parent_index = parent_info["Index"]
+            """
+            The branch is also dead if the execution has ended, or if a Map or
+            Parallel state further out than the immediate parent has been
+            terminated (that state's failure did not cancel this branch, e.g.
+            because it had no Task or Wait pending at the time). So walk the
+            whole stack, outermost first: enclosing_terminated[k] says whether
+            the execution has ended or the state of stack entry k, or one that
+            encloses it, is terminated.
+            """
+            enclosing_terminated = []
+            dead = self.branch_metadata[execution_arn].execution_ended
+            for info in branch_info_stack[:-1]:
+                enclosing_results = all_branch_results.get(info.get("ID"))
+                if enclosing_results and enclosing_results.get("terminated"):
+                    dead = True
+                enclosing_terminated.append(dead)
+            parent_terminated = dead
 
             # Get the item at the top of the Branch metadata stack
             branch_info = branch_info_stack[-1]
@@ -1196,12 +1204,27 @@ class StateEngine(object):
                     for i in range(int(batch[0]), min(int(batch[1]), len(results))):
                         results[i] = TERMINATED
 
-                if parent_terminated and parent_results[parent_index] is not CAUGHT:
-                    # (A CAUGHT slot is left as it is: the event that continues
-                    # that branch after the Catch is still outstanding and will
-                    # mark the slot as terminated itself when it is dropped.)
-                    #print("Terminating parent branch {}".format(parent_index))
-                    parent_results[parent_index] = TERMINATED
+                """
+                Mark the slot of this branch in every enclosing state that is
+                dead too, innermost first, and those states as terminated: the
+                branches that contain this one will not deliver a result.
+                (A CAUGHT slot is left as it is: the event that continues
+                that branch after the Catch is still outstanding and will
+                mark the slot as terminated itself when it is dropped.)
+                """
+                for k in range(len(enclosing_terminated) - 1, -1, -1):
+                    if not enclosing_terminated[k]:
+                        break
+                    info = branch_info_stack[k]
+                    enclosing_results = all_branch_results.get(info.get("ID"))
+                    if enclosing_results and "Index" in info:
+                        slots = enclosing_results["results"]
+                        if slots[info["Index"]] is not CAUGHT:
+                            slots[info["Index"]] = TERMINATED
+                        if not enclosing_results.get("terminated"):
+                            enclosing_results["terminated"] = info.get(
+                                "Range", "0:" + str(len(slots))
+                            )
 
                 #print(self.branch_metadata)
                 #print()
